@@ -144,7 +144,9 @@ def loop_paths(ctx: Ctx, engine: ClassInfo, exc_edges="try", base_exc=False) -> 
                 s = LSym("RAISE", e, {"value": show(e.term), "reraise": e.x.get("reraise")})
             elif e.kind == "call":
                 res = e.x.get("callee")
-                if res is not None and res.how in ("typed", "by_name", "slot", "unknown"):
+                if ctx.is_new_call(e):
+                    pass  # a helper introduced later: it is inlined, its body's operations are the symbols
+                elif res is not None and res.how in ("typed", "by_name", "slot", "unknown"):
                     s = LSym("OTHERCALL", e, {"call": show(e.term)})
             if s is None:
                 continue
